@@ -527,6 +527,69 @@ def case_union(ctx, case):
 COMPILED = {}
 
 
+def case_union_reentrant(ctx, case):
+    """a recursive format: the same Union object is entered again (through LazyBound) while one of its members is being
+    parsed.  Every node is what it would be alone from its position, and every node ends where its own selection says."""
+    import construct as C
+    order, headw, pf = case["order"], case["headw"], case["parsefrom"]
+    data, off = place(untag(case["data"]), case["offset"]), case["offset"]
+    ctx.ev()
+
+    class Short(Exception):
+        pass
+
+    def ref(pos):
+        vals, ends = {}, {}
+        for nm in order:
+            if nm == "head":
+                if pos + headw > len(data):
+                    raise Short()
+                vals[nm], ends[nm] = int.from_bytes(data[pos:pos + headw], "big"), pos + headw
+            elif nm == "z":
+                if pos + 1 > len(data):
+                    raise Short()
+                vals[nm], ends[nm] = data[pos], pos + 1
+            else:
+                if pos + 1 > len(data):
+                    raise Short()
+                t, child, e = data[pos], None, pos + 1
+                if t > 0:
+                    child, e = ref(pos + 1)
+                vals[nm], ends[nm] = {"tag": t, "child": child}, e
+        sel = None if pf is None else pf if isinstance(pf, str) else order[pf]
+        return vals, (pos if sel is None else ends[sel])
+    holder = []
+    mem = {"head": "head" / (C.Byte if headw == 1 else C.Int16ub), "z": "z" / C.Byte,
+           "tree": "tree" / C.Struct("tag" / C.Byte, "child" / C.If(C.this.tag > 0, C.LazyBound(lambda: holder[0])))}
+    holder.append(C.Union(pf, *[mem[nm] for nm in order]))
+    try:
+        want = ("ok",) + ref(off)
+    except Short:
+        want = ("fail",)
+    s = TracedStream(data, pos=off)
+    try:
+        got = ("ok", holder[0].parse_stream(s))
+    except C.ConstructError as e:
+        got = ("fail", type(e).__name__)
+    except Exception as e:
+        ctx.violation("union-reentrant-foreign:" + type(e).__name__, "recursive Union raised %s" % type(e).__name__, case)
+        return
+    if want[0] != got[0]:
+        ctx.violation("union-reentrant-%s" % ("accepts-short-input" if got[0] == "ok" else "raises:" + got[1]), "recursive Union: library %r, reference %r" % (got, want[:2]), case)
+        return
+    if got[0] != "ok":
+        return
+    if not veq(got[1], want[1]):
+        ctx.violation("union-reentrant-member-not-from-start", "recursive Union -> %r, every node alone from its position -> %r" % (got[1], want[1]), case)
+        return
+    if s.pos != want[2]:
+        ctx.violation("union-reentrant-final-position:%s" % ("none" if pf is None else type(pf).__name__),
+                      "stream at %d after the recursive Union (parsefrom=%r, members %s), expected %d" % (s.pos, pf, order, want[2]), case)
+        return
+    if data[off] > 0:
+        ctx.nontrivial("union-reentrant", order, headw, pf, data[off])
+
+
 def case_bitprobe(ctx, case):
     """alternatives / repetition / optional parts inside a bit region whose size is discovered while streaming: a probe that runs
     out of bits part-way leaves no trace - the bits it looked at are still there for what follows.  Reference: rv.refmodel."""
@@ -565,7 +628,7 @@ def bitprobe_recipes():
     ]
 
 
-KINDS = {"peek": case_peek, "pointer": case_pointer, "select": case_select, "greedy": case_greedy, "union": case_union, "bitprobe": case_bitprobe, "select-foreign": case_select_foreign}
+KINDS = {"peek": case_peek, "pointer": case_pointer, "select": case_select, "greedy": case_greedy, "union": case_union, "bitprobe": case_bitprobe, "select-foreign": case_select_foreign, "union-reentrant": case_union_reentrant}
 
 
 LAST = [None]
@@ -598,6 +661,10 @@ def run(ctx):
         jobs.append(("union", tuple(trip.choice(names) for _ in range(k)), trip.random()))
     for bi, br in enumerate(bitprobe_recipes()):
         jobs.append(("bitprobe", bi, br))
+    for order in (["head", "tree", "z"], ["tree", "head", "z"], ["head", "z", "tree"], ["tree", "z", "head"]):
+        for headw in (1, 2):
+            for pf in (None, "head", "tree", "z", 0, 1, 2):
+                jobs.append(("union-reentrant", order, headw, pf))
     for f in ("zlib", "lookup", "arity", "lambda"):
         for n in ("byte", "u16", "cstr", "struct", "varint", "bytes3"):
             jobs.append(("select-foreign", f, n))
@@ -639,6 +706,12 @@ def run(ctx):
             ins = [bytes([a]) for a in range(256)] + [bytes([a, b]) for a in range(0, 256, 17) for b in (0, 0x5a, 0xff)] + [bytes(rng.getrandbits(8) for _ in range(L)) for L in (3, 3, 4, 4, 5, 6) for _ in range(ctx.pick(4, 40))] + [b""]
             for data in ins:
                 run_case(ctx, {"kind": "bitprobe", "recipe": job[2], "data": tag(data)})
+        elif kind == "union-reentrant":
+            datas = [b"\x00\xaa\xbb", b"\x01\x00\xaa\xbb", b"\x02\x01\x00\xaa\xbb\xcc", b"\x03\x02\x01\x00\x09\x08\x07", b"\x01\x01\x01\x00", b"\x01\x01", b"\x02", b"", b"\x00",
+                     b"\x01\x00", b"\xff\x01\x00\x00\x05"] + [bytes(rng.choice([0, 0, 1, 2, 3]) for _ in range(rng.randint(1, 7))) + b"\x00\x10\x20" for _ in range(ctx.pick(6, 40))]
+            for data in datas:
+                for off in (0, 2):
+                    run_case(ctx, {"kind": "union-reentrant", "order": job[1], "headw": job[2], "parsefrom": job[3], "data": tag(data), "offset": off})
         elif kind == "optional":
             for data in inputs_for([job[1]], rng):
                 for off in (0, 1, 4):
